@@ -19,6 +19,7 @@ import (
 	"sort"
 	"strconv"
 	"strings"
+	"syscall"
 	"time"
 
 	"ggvh/internal/gen"
@@ -113,6 +114,14 @@ func parseJSONStream(out []byte, dir string) []binDiag {
 	return ds
 }
 
+// killGroupOnCancel: on timeout the whole process group goes (go vet starts one tool process per package; a tool that
+// does not terminate would otherwise survive its parent)
+func killGroupOnCancel(cmd *exec.Cmd) {
+	cmd.SysProcAttr = &syscall.SysProcAttr{Setpgid: true}
+	cmd.Cancel = func() error { return syscall.Kill(-cmd.Process.Pid, syscall.SIGKILL) }
+	cmd.WaitDelay = 5 * time.Second
+}
+
 func runStandalone(bin, dir string, args []string, env []string, patterns ...string) binRun {
 	return runStandaloneAt(bin, dir, dir, args, env, patterns...)
 }
@@ -125,6 +134,7 @@ func runStandaloneAt(bin, cwd, dir string, args []string, env []string, patterns
 	ctx, cancel := context.WithTimeout(context.Background(), binTimeout)
 	defer cancel()
 	cmd := exec.CommandContext(ctx, bin, append(append([]string{"-json"}, args...), patterns...)...)
+	killGroupOnCancel(cmd)
 	cmd.Dir = cwd
 	cmd.Env = cleanEnv(env...)
 	var so, se bytes.Buffer
@@ -155,6 +165,7 @@ func runVetAt(bin, cwd, dir string, args []string, env []string, patterns ...str
 	ctx, cancel := context.WithTimeout(context.Background(), binTimeout)
 	defer cancel()
 	cmd := exec.CommandContext(ctx, "go", append(append([]string{"vet", "-json", "-vettool=" + bin}, args...), patterns...)...)
+	killGroupOnCancel(cmd)
 	cmd.Dir = cwd
 	cmd.Env = cleanEnv(env...)
 	var so, se bytes.Buffer
@@ -527,7 +538,9 @@ func binDrivers(o corrOpts, sum *res.Summary, r *rng.R, bin string) {
 				}
 				movedUsers++
 				os.WriteFile(filepath.Join(u, "go.mod"), []byte("module exp/"+strings.TrimSuffix(rel, "/")+"\n\ngo 1.25\n\nrequire exp v0.0.0\n\nreplace exp => ../../..\n"), 0o644)
-				here := func(k string) bool { return strings.HasPrefix(k, rel) && !strings.Contains(strings.TrimPrefix(k, rel), "/") }
+				here := func(k string) bool {
+					return strings.HasPrefix(k, rel) && !strings.Contains(strings.TrimPrefix(k, rel), "/")
+				}
 				rs := runStandaloneAt(bin, u, dir, nil, nil, ".")
 				if c := crashed(rs); c != "" {
 					sum.Notes = append(sum.Notes, "user-module run failed: "+c[:min(len(c), 200)])
